@@ -503,7 +503,7 @@ def gen_cases(tier):
             else:
                 yield ("cli", name, fmt, ["from_file"], ["from_cli", "cli2"], ["from_config"])
     for fmt in ("md", "toml", "config"):
-        for key in ("no_such_option", "projekt", "output-dir"):
+        for key in ("no_such_option", "projekt", "output-dir", "relative"):  # the last one is an attribute of the settings object, not an option
             yield ("unknown", fmt, key)
         for name, tp in fields.items():
             cls = type_class(tp)
